@@ -150,6 +150,22 @@ def agent_ops(rng, nscen, client_types):
             for w in where:
                 ops.append("a addforeign %s %d %s" % (rng.choice([c.hexs("cardno:000611223344"), label]), fresh(), w))
             ops += ["a upsert %s %d %s" % (label, fresh(), kt) for _ in range(2)]
+    # the client's installation sequence (attempt with a lifetime, retry of the same certificate without) against
+    # an agent that fails one request of an attempt: every (first attempt, retry) fault pair for every client key
+    # type, with two earlier certificates under the label each time
+    first = ["ok", "list", "remove0", "remove1", "add", "life"]
+    retry = ["ok", "list", "remove0", "add"]
+    for kt in client_types:
+        label = c.hexs("keymaster-%s-username" % kt.replace(":", ""))
+        other = [t for t in all_types if t != kt]
+        ops += ["a reset", "a add %s %d plain %s" % (label, fresh(), kt), "a add %s %d cert %s" % (c.hexs("other"), fresh(), kt),
+                "a add %s %d cert %s" % (label, fresh(), other[0])]
+        for f1 in first:
+            for f2 in retry:
+                ops += ["a add %s %d cert %s" % (label, fresh(), kt),         # earlier certificates under the label
+                        "a add %s %d cert %s" % (label, fresh(), other[0]),
+                        "a install %s %d %s %s %s" % (label, fresh(), kt, f1, f2)]
+    faults = ["ok", "ok", "list", "remove0", "remove1", "remove2", "add", "life"]
     for _ in range(nscen):
         ops.append("a reset")
         nrsa = 0
@@ -166,7 +182,9 @@ def agent_ops(rng, nscen, client_types):
         label, kt = rng.choice(comments), rng.choice(client_types)
         for _ in range(rng.randrange(1, 7)):
             r = rng.random()
-            if r < 0.6:
+            if r < 0.3:
+                ops.append("a install %s %d %s %s" % (label, fresh(), kt, " ".join(rng.choice(faults) for _ in range(2))))
+            elif r < 0.6:
                 ops.append("a upsert %s %d %s" % (label, fresh(), kt))
             elif r < 0.8:
                 ops.append("a upsert %s %d %s" % (rng.choice(comments), fresh(), rng.choice(client_types)))
@@ -338,6 +356,8 @@ def run(ctx):
         f = o.split()
         if f[1] == "addforeign":
             return "a add %s %s plain" % (f[2], f[3])
+        if f[1] == "install":
+            return " ".join(f[:4] + f[5:])
         return " ".join(f[:5] if f[1] == "add" else f[:4])
     amops = [mop(o) for o in aops]
     cov["agent_foreign_identities"] = sum(1 for o in aops if o.split()[1] == "addforeign")
@@ -345,17 +365,40 @@ def run(ctx):
     model = c.run_driver(ctx, "model", amops)
     c.diff_streams(ctx, "withAddedKeyUpsertCertIntoAgentConnection on an in-memory agent vs KM.Client.agentUpsert", aops, aimpl, model)
     jops, jmeta = [], []
+
+    def entries(l):
+        """`[ok|fail] list e…` / `reset` → `e,…` (None: the op did not leave a listing)"""
+        t = l.split()
+        if t and t[0] in ("ok", "fail"):
+            t = t[1:]
+        if t and t[0] in ("list", "reset"):
+            return ",".join(t[1:]) or "-"
+        return None
+    cov["agent_installs"] = {}
     for i, (o, l) in enumerate(zip(aops, aimpl)):
         f = o.split()
-        if f[1] == "upsert" and l.startswith("list") and i > 0 and aimpl[i - 1].split()[0] in ("list", "reset"):
-            before = ",".join(aimpl[i - 1].split()[1:]) or "-"
-            after = ",".join(l.split()[1:]) or "-"
+        before = entries(aimpl[i - 1]) if i > 0 else None
+        after = entries(l)
+        if f[1] == "upsert" and l.startswith("list") and before is not None:
             jops.append("agent %s %s %s %s" % (f[2], f[3], before, after))
+            jmeta.append((i, o, before, after))
+        elif f[1] == "install" and after is not None and before is not None:
+            k = "%s:%s" % (" ".join(f[5:]), l.split()[0])
+            cov["agent_installs"][k] = cov["agent_installs"].get(k, 0) + 1
+            jops.append("retry %s %s %s %s" % (f[2], f[3], before, after))
             jmeta.append((i, o, before, after))
     verdicts = c.run_driver(ctx, "judge", jops) if jops else []
     for (i, o, b, a), v in zip(jmeta, verdicts):
         cov["agent_upserts"] += 1
-        if v != "ok":
+        if v != "ok" and o.split()[1] == "install":
+            start = max(j for j in range(i + 1) if aops[j] == "a reset")
+            pending_violation(ctx, "agent-install-retry", "the client's installation sequence (upsert with a lifetime, retry of the same "
+                              "certificate without) of a %s certificate labelled %r against an agent failing one request per attempt "
+                              "(%s): agent before=[%s] after=[%s]: %s (ops: %s)" % (
+                                  o.split()[4], c.unhexs(o.split()[2]), " then ".join(o.split()[5:]), b, a, v,
+                                  "; ".join(aops[start:i + 1])[-600:]),
+                              {"stream": "a", "ops": aops[start:i + 1], "judge": v})
+        elif v != "ok":
             start = max(j for j in range(i + 1) if aops[j] == "a reset")
             pending_violation(ctx, "agent-upsert", "upsert of a %s certificate labelled %r: agent before=[%s] after=[%s]: %s (ops: %s)" % (
                               (o.split() + ["ed25519:256"])[4], c.unhexs(o.split()[2]), b, a, v, "; ".join(aops[start:i + 1])[:600]),
